@@ -12,6 +12,28 @@ use jomini::{Encoding, TextTape, TextToken, Utf8Encoding, Windows1252Encoding};
 use serde::de::{Deserialize, Deserializer, MapAccess, SeqAccess, Visitor};
 use std::fmt;
 
+/// no document of the streams has more than a few hundred tokens: an iterator that yields more than
+/// CAP items, or a JSON text longer than OUT_CAP bytes, is a runaway (reported, not followed)
+const CAP: usize = 100_000;
+const OUT_CAP: usize = 1 << 18;
+
+struct LimitedWriter {
+    buf: Vec<u8>,
+}
+
+impl std::io::Write for LimitedWriter {
+    fn write(&mut self, d: &[u8]) -> std::io::Result<usize> {
+        if self.buf.len() + d.len() > OUT_CAP {
+            return Err(std::io::Error::new(std::io::ErrorKind::Other, "output limit"));
+        }
+        self.buf.extend_from_slice(d);
+        Ok(d.len())
+    }
+    fn flush(&mut self) -> std::io::Result<()> {
+        Ok(())
+    }
+}
+
 fn tok_str(t: &TextToken) -> String {
     show_tokens(std::slice::from_ref(t))
 }
@@ -41,9 +63,9 @@ fn join(v: Vec<String>) -> String {
 }
 
 fn array_view<E: Encoding + Clone>(tokens: &[TextToken], r: &ArrayReader<E>) -> String {
-    let vals: Vec<String> = r.values().map(|v| idx_of(tokens, &v).to_string()).collect();
+    let vals: Vec<String> = r.values().take(CAP).map(|v| idx_of(tokens, &v).to_string()).collect();
     let (lo, hi) = r.values().size_hint();
-    let strs: Vec<String> = r.values().map(|v| str_of(&v)).collect();
+    let strs: Vec<String> = r.values().take(CAP).map(|v| str_of(&v)).collect();
     format!(
         "A{{n={},v=[{}],vs=[{}],tl={},e={},vh={}/{}}}",
         r.len(),
@@ -62,7 +84,7 @@ fn object_view<E: Encoding + Clone>(tokens: &[TextToken], r: &ObjectReader<E>) -
     let mut fs = Vec::new();
     let mut ks = Vec::new();
     let mut vs = Vec::new();
-    for (key, op, val) in fields.by_ref() {
+    for (key, op, val) in fields.by_ref().take(CAP) {
         vs.push(str_of(&val));
         fs.push(format!("{}/{}/{}", tok_str(key.token()), op_str(&op), idx_of(tokens, &val)));
         ks.push(hex(key.read_str().as_bytes()));
@@ -70,15 +92,21 @@ fn object_view<E: Encoding + Clone>(tokens: &[TextToken], r: &ObjectReader<E>) -
         assert_eq!(key.read_string().as_bytes(), key.read_str().as_bytes());
     }
     let rem = fields.remainder();
-    let remv: Vec<String> = rem.values().map(|v| idx_of(tokens, &v).to_string()).collect();
+    let remv: Vec<String> = rem.values().take(CAP).map(|v| idx_of(tokens, &v).to_string()).collect();
     let mut groups = r.field_groups();
     let gh = groups.size_hint().0;
     let mut gs = Vec::new();
     let mut ghs = Vec::new();
+    let mut rounds = 0;
     while let Some((key, group)) = groups.next() {
+        rounds += 1;
+        if rounds > CAP {
+            break;
+        }
         let n = group.len();
         let vs: Vec<String> = group
             .values()
+            .take(CAP)
             .map(|(op, v)| format!("{}/{}", op_str(&op), idx_of(tokens, &v)))
             .collect();
         let kind = match group {
@@ -90,7 +118,7 @@ fn object_view<E: Encoding + Clone>(tokens: &[TextToken], r: &ObjectReader<E>) -
         ghs.push(groups.size_hint().0.to_string());
     }
     let grem = groups.remainder();
-    let gremv: Vec<String> = grem.values().map(|v| idx_of(tokens, &v).to_string()).collect();
+    let gremv: Vec<String> = grem.values().take(CAP).map(|v| idx_of(tokens, &v).to_string()).collect();
     format!(
         "O{{fl={},h={},f=[{}],rem=[{}]/{}/{},g=[{}],gh={}:{},grem=[{}],tl={},ks=[{}],vs=[{}]}}",
         r.fields_len(),
@@ -115,7 +143,7 @@ fn find_in_values<'d, 't, E: Encoding + Clone>(
     it: impl Iterator<Item = ValueReader<'d, 't, E>>,
     target: usize,
 ) -> Option<ValueReader<'d, 't, E>> {
-    for v in it {
+    for v in it.take(CAP) {
         let i = idx_of(tokens, &v);
         if i == target {
             return Some(v);
@@ -154,7 +182,7 @@ fn find_in_object<'d, 't, E: Encoding + Clone>(
     target: usize,
 ) -> Option<ValueReader<'d, 't, E>> {
     let mut fields = o.fields();
-    let vals: Vec<ValueReader<'d, 't, E>> = fields.by_ref().map(|(_, _, v)| v).collect();
+    let vals: Vec<ValueReader<'d, 't, E>> = fields.by_ref().take(CAP).map(|(_, _, v)| v).collect();
     if let Some(r) = find_in_values(tokens, vals.into_iter(), target) {
         return Some(r);
     }
@@ -388,13 +416,20 @@ fn json_text<E: Encoding + Clone>(
     opts: JsonOptions,
 ) -> Result<Vec<u8>, String> {
     let tokens = tape.tokens();
+    let limited = |r: Result<(), std::io::Error>, w: LimitedWriter| -> Result<Vec<u8>, String> {
+        match r {
+            Ok(()) => Ok(w.buf),
+            Err(_) => Err("OUTPUT-LIMIT".to_string()),
+        }
+    };
     if idx == "top" {
-        // to_string and to_writer are the same serializer
-        let v = top.json().with_options(opts).to_vec();
+        let mut w = LimitedWriter { buf: Vec::new() };
+        let r = top.json().with_options(opts).to_writer(&mut w);
+        let v = limited(r, w)?;
+        // to_vec and to_string are the same serializer (only tried once the output is known to be finite)
+        let v2 = top.json().with_options(opts).to_vec();
         let s = top.json().with_options(opts).to_string();
-        let mut w = Vec::new();
-        top.json().with_options(opts).to_writer(&mut w).unwrap();
-        if s.as_bytes() != v.as_slice() || w != v {
+        if s.as_bytes() != v.as_slice() || v2 != v {
             return Err("ENTRY-MISMATCH".to_string());
         }
         return Ok(v);
@@ -404,16 +439,62 @@ fn json_text<E: Encoding + Clone>(
         Some(v) => v,
         None => return Err("UNREACH".to_string()),
     };
+    let mut w = LimitedWriter { buf: Vec::new() };
     match entry {
-        "v" => Ok(v.json().with_options(opts).to_vec()),
+        "v" => {
+            let r = v.json().with_options(opts).to_writer(&mut w);
+            limited(r, w)
+        }
         "o" => match v.read_object() {
-            Ok(o) => Ok(o.json().with_options(opts).to_vec()),
+            Ok(o) => {
+                let r = o.json().with_options(opts).to_writer(&mut w);
+                limited(r, w)
+            }
             Err(_) => Err("E".to_string()),
         },
         _ => match v.read_array() {
-            Ok(a) => Ok(a.json().with_options(opts).to_vec()),
+            Ok(a) => {
+                let r = a.json().with_options(opts).to_writer(&mut w);
+                limited(r, w)
+            }
             Err(_) => Err("E".to_string()),
         },
+    }
+}
+
+// ------------------------------------------------------------------ watchdog
+// A case of this family takes microseconds.  If one is still running after WATCHDOG_MS the process
+// aborts: the runner prints ABORT for that case and goes on with the next one (a hang would
+// otherwise cost the runner's whole per-chunk timeout).
+use std::sync::atomic::{AtomicU64, Ordering};
+static CASE_SEQ: AtomicU64 = AtomicU64::new(0);
+static WATCHDOG: std::sync::Once = std::sync::Once::new();
+const WATCHDOG_MS: u64 = 4000;
+
+fn watchdog_enter() {
+    WATCHDOG.call_once(|| {
+        std::thread::spawn(|| {
+            let mut last = 0u64;
+            let mut since = std::time::Instant::now();
+            loop {
+                std::thread::sleep(std::time::Duration::from_millis(250));
+                let cur = CASE_SEQ.load(Ordering::SeqCst);
+                if cur != last || cur % 2 == 0 {
+                    last = cur;
+                    since = std::time::Instant::now();
+                } else if since.elapsed().as_millis() as u64 > WATCHDOG_MS {
+                    std::process::abort();
+                }
+            }
+        });
+    });
+    CASE_SEQ.fetch_add(1, Ordering::SeqCst);
+}
+
+struct WatchdogGuard;
+impl Drop for WatchdogGuard {
+    fn drop(&mut self) {
+        CASE_SEQ.fetch_add(1, Ordering::SeqCst);
     }
 }
 
@@ -421,6 +502,8 @@ pub fn dispatch(kind: &str, a: &[&str]) -> Option<String> {
     if !(kind.starts_with("dom.") || kind.starts_with("json.")) {
         return None;
     }
+    watchdog_enter();
+    let _guard = WatchdogGuard;
     if kind == "json.f64" && a.len() == 1 {
         let d = unhex(a[0]);
         return Some(match jomini::Scalar::new(&d).to_f64() {
